@@ -100,10 +100,19 @@ def rCmd : R (Option Dbg.Cmd) := do
   | "s" => pure (some .step)
   | "c" => pure (some .cont)
   | "b" => do let v ← int; pure (some (.brk v))
-  | "x" => do let v ← int; pure (some (.clear v))
+  | "x" => do let v ← list int; pure (some (.clear v))
   | "X" => pure (some .clearAll)
   | "r" => pure (some .restart)
   | "g" => do let v ← int; pure (some (.goto v))
+  | "ar" => do
+    let i ← nat
+    let v ← int
+    pure (some (.assignReg i v))
+  | "am" => do
+    let a ← int
+    let v ← int
+    pure (some (.assignMem a v))
+  | "ap" => do let v ← int; pure (some (.assignPc v))
   | "f" => do
     let w ← nat
     let v ← bool
